@@ -175,6 +175,8 @@ def container_run(R, pc, fio, n):
     for i in range(n):
         cols = gen_container(R.rng)
         op = ('take', 'mask', 'max', 'unique', 'mean', 'slice')[i % 6]
+        if op == 'mean' and not any(c['p'] for c in cols):
+            cols[0]['p'] = 1      # the weighted mean is undefined (0/0) when every probability is zero
         R.count(('container', op, i))
         rec = {'op': op, 'columns': cols}
         try:
